@@ -415,7 +415,7 @@ PROPS = {
         "theorems": ["Astral.C18.builtin_ok", "Astral.C18.builtin_nodup", "Astral.C18.builtin_names_not_groups",
                      "Astral.C18.noon_window",
                      "Astral.EoT.eqOfTime_bound"],
-        "groups": [G("corr_geo", "dms", 3000, 40000, exhaustive_thorough=["dms_exhaustive"]),
+        "groups": [G("corr_sun", "builtin_noon", 15000, 150000), G("corr_geo", "dms", 3000, 40000, exhaustive_thorough=["dms_exhaustive"]),
                    G("corr_geo", "geocoder", 1500, 40000)],
         "unproved": ["the computed (NOAA) noon in [09:30, 14:30]: noon_window plus the proved "
                      "|eq_of_time| ≤ 18.7 min (Astral.EoT.eqOfTime_bound) bound it to [09:11, 14:49] for a "
